@@ -205,4 +205,15 @@ TEXTS = {
         'note': ('Kernel numerics are runtime (validated, not proved). Known finding F20: dynamic-range depthwise conv with '
                  'per-tensor weights is garbage at runtime. Axioms: none.'),
     },
+    'C07': {
+        'level': ('PARTIAL proof + runtime validation. Proved (all ranges, widths >= 2, both symmetries, Reals): every value '
+                  'inside the calibrated range is reproduced within half a step (nothing in range is clipped); unclipped '
+                  'values get codes at least (y-x)/scale - 1 apart (parameters cannot collapse an output); scale > 0 and '
+                  'zero exact; the fixed softmax/logistic/tanh ranges cover the codomain up to one step. NOT provable here: '
+                  'the numerics of LiteRT\'s integer kernels - validated by executing float and quantized model on the '
+                  'calibration input, op by op, with root-cause keys (first deviating op). That validation found a genuine '
+                  'defect (F21: static BATCH_MATMUL with a constant operand under per-channel weights yields all zeros - this '
+                  'includes the shipped a8w8/a16w8 recipes).'),
+        'note': ('Kernel numerics are runtime. Axioms: Reals axioms via Flocq.'),
+    },
 }
